@@ -64,8 +64,15 @@ MinimalK(c) ==
         names(k) == {IF onlyJoin /\ n \notin L THEN n ELSE n \o Sfx(k) : n \in R}
     IN CHOOSE k \in 0..20 : names(k) \cap L = {} /\ \A j \in 0..(k - 1) : names(j) \cap L # {}
 
+(* CacheModel.JoinRightNames (the transcription used by TraceMeta; it fixes the smallest integer) satisfies the documented rule *)
+CM == INSTANCE CacheModel
+RonSeq(c) == IF c.onmode = "same" THEN <<"a">> ELSE IF c.onmode = "cross" THEN <<"b">> ELSE <<"rk">>
+SpecsAgree == \A c \in Configs : (Valid(c) /\ ~(c.usfx # "" /\ \E n \in SeqSet(c.r) : (n \o c.usfx) \in SeqSet(c.l)))
+                                  => Judge(c, c.l \o CM!JoinRightNames(c.l, c.r, RonSeq(c), "t2", c.usfx), "") = "ok"
+
 Recs == IF Mode = "check" THEN ndJsonDeserialize(IOEnv.VERIF_JOINNAMES) ELSE <<>>
 
+ASSUME Mode = "gen" => SpecsAgree
 ASSUME Mode = "gen" =>
     \A c \in Configs : Valid(c) => PrintT(ToJson(c))
 
